@@ -4,7 +4,7 @@ Everything is drawn from one random.Random; boundary-biased: list lengths around
 8-per-line chunk edges, 0..12 default incons, table generators with 1..12 times with and
 without enthalpy, None in optional fields, both flavours, three mesh placements, extra
 precision off / on / echoed, legal permutations of the section order."""
-import string, math
+import string, math, random
 from props.c01_oracle import SECTIONS, DEPENDS, XP_SECTIONS
 
 LETTERS = string.ascii_letters
@@ -318,6 +318,37 @@ def gen_spec(rng, size=None, force=None):
     sp['order'] = legal_order(rng, present)
     sp['config'] = {'mesh': mesh, 'xp': xp, 'echo': echo}
     if auto and xp and (echo is not False or mesh != 'infile'): shorten_dual(sp)
+    erng = random.Random(rng.random())
+    if erng.random() < 0.5: add_grid_edits(sp, erng)
+    return sp
+
+
+def add_grid_edits(sp, rng, p=0.6):
+    """The same final object, reached through public edits of the grid instead of by construction
+    (c01_oracle.build applies them): a rock type renamed (its key moves to the end of grid.rocktype,
+    its list position stays), rock types added in another order and then sort_rocktypes(), blocks and
+    connections added in another order and then grid.reorder().  Afterwards the order of the grid's
+    dictionaries differs from the order of its lists, which is the order the files are written in."""
+    ed = {}
+    rocks = sp['rocks']
+    rn = [r['name'] for r in rocks]
+    if rocks and len(set(rn)) == len(rn):
+        if len(rocks) >= 2 and rng.random() < p:
+            rocks.sort(key=lambda r: r['name'])
+            perm = list(range(len(rocks))); rng.shuffle(perm)
+            ed['rock_build_order'] = perm
+        if rng.random() < p:
+            while True:
+                old = rockname(rng)
+                if old not in rn: break
+            ed['rename_rock'] = [rng.randrange(len(rocks)), old]
+    if len(sp['blocks']) >= 2 and rng.random() < p:
+        pb = list(range(len(sp['blocks']))); rng.shuffle(pb)
+        ed['block_build_order'] = pb
+        if sp['conns']:
+            pc = list(range(len(sp['conns']))); rng.shuffle(pc)
+            ed['conn_build_order'] = pc
+    if ed: sp['grid_edits'] = ed
     return sp
 
 
@@ -354,7 +385,8 @@ def shape(sp):
     return {'flavour': 'AUTOUGH2' if sp['simulator'] else 'TOUGH2', 'mesh': sp['config']['mesh'],
             'xp': 'off' if not sp['config']['xp'] else ('echo' if sp['config']['echo'] else 'on'),
             'nsections': len(sp['order']), 'nblocks': len(sp['blocks']), 'ngens': len(sp['generators']),
-            'standard_order': sp['order'] == [s for s in SECTIONS if s in sp['order']]}
+            'standard_order': sp['order'] == [s for s in SECTIONS if s in sp['order']],
+            'grid_edits': '+'.join(sorted(k.split('_')[0] for k in sp.get('grid_edits', {}))) or 'none'}
 
 
 # ------------------------------------------------------------------ fixed witnesses of the recorded findings
@@ -380,7 +412,24 @@ def witness_specs():
     out.append(('print-block-not-fixed', s))
     s = base_spec(); s['config'] = {'mesh': 'infile', 'xp': True, 'echo': True}; s['blocks'][0]['volume'] = 1.234549999999
     out.append(('echo-double-rounding', s))
+    # not a finding: a fixed object whose grid was edited (rename + sort + reorder) before writing, in each mesh placement
+    for mesh in ('binary', 'ascii', 'infile'):
+        out.append(('edited-grid-' + mesh, edited_grid_spec(mesh)))
     return out
+
+
+def edited_grid_spec(mesh):
+    s = base_spec(auto=False)
+    r0 = s['rocks'][0]
+    s['rocks'] = [dict(r0, name=n, density=2000.0 + 100 * i, extra={}) for i, n in enumerate(['basmt', 'clay1', 'sand2'])]
+    s['blocks'] = [{'name': 'abc%2d' % (i + 1), 'nseq': None, 'nadd': None, 'rock': s['rocks'][i % 3]['name'], 'volume': 100.0 * (i + 1),
+                    'ahtx': 0.0, 'pmx': 1.0, 'centre': [10.0 * i, 5.0, -20.0 * i]} for i in range(7)]
+    s['conns'] = [{'b1': s['blocks'][i]['name'], 'b2': s['blocks'][i + 1]['name'], 'nseq': None, 'nad1': None, 'nad2': None, 'direction': 1,
+                   'distance': [5.0, 5.0], 'area': 10.0 + i, 'dircos': 0.0, 'sigma': 0.0} for i in range(6)]
+    s['config'] = {'mesh': mesh, 'xp': None, 'echo': None}
+    s['grid_edits'] = {'rock_build_order': [2, 0, 1], 'rename_rock': [0, 'zzold'], 'block_build_order': [3, 0, 6, 1, 5, 2, 4],
+                       'conn_build_order': [5, 4, 3, 2, 1, 0]}
+    return s
 
 
 def fortran_spec(rng):
